@@ -109,6 +109,24 @@ CLAIMED = {
              'parser\'s composition is C07. The physical value of the constants KD and 9.8663479e-9 is not decided.',
         technique='path-sensitive abstract interpretation with loop-iteration snapshots and exact normal forms',
     ),
+    'C01': dict(
+        category='proof',
+        text='(a) exhaustive name<->macro<->slot agreement of ShellName/LineName/TransName/AugerName/AugerNameTotal with '
+             'every macro of the four header families (1 431 obligations) and their extents; (b) parser wiring of the 11 '
+             'scalar tables in xrayfiles.c (file, name table, bound, eV->keV step, non-positive default) and printer wiring / '
+             '%.10E precision in pr_data.c; (c) for the 11 scalar accessors the single value path returns exactly one load '
+             'T[Z][g(macro)] of the frozen table, the interval facts on that path equal [1,ZMAX] x the extent of the macro '
+             'range, the cell is > 0, and every other path reports an error and returns 0. Thorough tier '
+             '(translation_validation): all ~122 000 generated cells of 9 tables are string-equal to %.10E of the '
+             'independently parsed data record (or the default), and no record is dropped.',
+        design_ref='DESIGN.md section 2, C01',
+        note='Trusted: clang front end, E1 interval facts, E3 names, Python float formatting = glibc printf (both '
+             'correctly rounded). The C compiler\'s parsing of the generated 11-digit literals is trusted. Grouped line '
+             'macros are C10; Auger accessors C11. A later record for the same (Z, name) overrides an earlier one by design. '
+             'Both data configurations: no rule depends on the Kissel table being empty (ElectronConfig is checked for '
+             'shape; Kissel cells are covered by C02).',
+        technique='exhaustive table/macro agreement + interval abstract interpretation of accessor paths; thorough: generated-table validation against data files',
+    ),
 }
 
 NOT_YET = {}
